@@ -295,8 +295,11 @@ def run_given(col, strategy, oracle, seed, max_examples, shrink=True):
     The Violation raised out of the final (shrunk) replay is recorded in the
     collector; any other exception is a harness error and propagates.
     """
+    import warnings
     import hypothesis
     from hypothesis import given
+    from hypothesis.errors import HypothesisWarning
+    warnings.filterwarnings('ignore', category=HypothesisWarning)
 
     def body(case):
         if col.out_of_time():
